@@ -25,6 +25,14 @@
    of this file: RFC 1321 MD5 (Base/MD5.v), MD5 after the dos2unix text normalisation of
    hashfile/hash.py, and FIPS 180-4 SHA-256 (written below).
 
+   A store directory can be reopened under the other class (OReopen): what the generic class left
+   unprotected is then found by a local-class store.  A status query (transfer, staging) on a
+   local-class store runs LocalHashFileDB.check on every id it asks about: an unprotected object
+   is re-hashed, protected on a match, removed on a mismatch ([check_obj]).
+   The model is free of any hash-state cache: it hashes.  The harness also runs histories in which
+   all stores share one real State and unchanged workspaces are staged again under the other
+   algorithm; the real code must then still equal this cache-free model ("the state cache is sound").
+
    Non-determinism the implementation resolves internally is an explicit argument:
      - the order in which the workspace walk / the index iteration yields files (Stage, SaveIndex:
        with md5-dos2unix two different contents can have one oid; the last one yielded is the one
@@ -139,6 +147,19 @@ Definition put_link (st : state) (si : nat) (k : oid) (o : obj) : state :=
   {| st_stores := upd_nth si (fun s => with_objs s (aput k o (s_objs s))) (st_stores st);
      st_next := st_next st |}.
 
+Fixpoint aremove {A} (k : oid) (l : list (oid * A)) : list (oid * A) :=
+  match l with
+  | [] => []
+  | (k', v) :: r => if list_N_eqb k k' then aremove k r else (k', v) :: aremove k r
+  end.
+(* fs.remove(obj.path): the name goes, other names of the inode stay *)
+Definition del_obj (st : state) (si : nat) (k : oid) : state :=
+  {| st_stores := upd_nth si (fun s => with_objs s (aremove k (s_objs s))) (st_stores st);
+     st_next := st_next st |}.
+Definition set_cls (st : state) (si : nat) (c : cls) : state :=
+  {| st_stores := upd_nth si (fun s => {| s_cls := c; s_alg := s_alg s; s_objs := s_objs s |}) (st_stores st);
+     st_next := st_next st |}.
+
 Definition store_has (st : state) (si : nat) (k : oid) : bool :=
   match get_store st si with Some s => ahas k (s_objs s) | None => false end.
 
@@ -178,7 +199,8 @@ Inductive op :=
 | OAdd (si : nat) (b : list N) (k : oid)
 | OTransfer (src dst : nat) (ids : list oid) (shallow : bool)
 | OSaveIndex (si : nat) (dirs : list key) (files : list (key * list N * oid))
-| OMigrate (src dst : nat) (order : list oid) (hard : bool).
+| OMigrate (src dst : nat) (order : list oid) (hard : bool)
+| OReopen (si : nat) (c : cls).              (* the same directory opened under the other store class *)
 
 Section WithDigest.
 Variable H : alg -> list N -> oid.
@@ -215,44 +237,74 @@ Fixpoint load_all (a : alg) (src : oid -> option (list N)) (ds : list oid)
 
 Definition is_nilb (o : oid) : bool := match o with [] => true | _ => false end.
 
+(* oid.split(".")[0] *)
+Fixpoint stem (k : oid) : oid :=
+  match k with
+  | [] => []
+  | c :: r => if c =? 46 then [] else c :: stem r
+  end.
+
+(* LocalHashFileDB.check(oid), as oids_exist calls it for every id of a status query: a missing
+   file does not exist; mode 0o444 is trusted; anything else is re-hashed (HashFileDB.check):
+   a mismatch removes the object (ObjectFormatError -> does not exist), a match protects it.
+   The generic class only looks whether the file is there. *)
+Definition check_obj (st : state) (si : nat) (k : oid) : state :=
+  match get_store st si with
+  | Some s =>
+      match s_cls s with
+      | Local =>
+          match alookup k (s_objs s) with
+          | Some o =>
+              if o_mode o =? mode_ro then st
+              else if list_N_eqb (stem (H (s_alg s) (o_bytes o))) (stem k)
+                   then chmod_all (o_ino o) mode_ro st
+                   else del_obj st si k
+          | None => st
+          end
+      | Base => st
+      end
+  | None => st
+  end.
+Definition check_all (st : state) (si : nat) (ks : list oid) : state :=
+  fold_left (fun s k => check_obj s si k) ks st.
+
 (* the (oid, bytes) pairs of the ids the source really holds *)
 Definition items_of (src : oid -> option (list N)) (ks : list oid) : list (oid * list N) :=
   flat_map (fun k => match src k with Some b => [(k, b)] | None => [] end) ks.
 
-(* transfer(src, dest, ids, shallow=...) without faults and without remote indexes: what is to be
-   copied - (file objects, directory objects) - or the exception.
-   [a]: hash_name of the source odb; [src]: its objects.  (status.py assumes that a memfs staging
-   source holds every id; build() put every id it requests there, so looking them up is the same.) *)
-Definition transfer_plan (a : alg) (src : oid -> option (list N))
-           (st : state) (dst : nat) (ids : list oid) (shallow : bool)
-  : (list (oid * list N) * list (oid * list N)) + N :=
+(* status(): the ids a transfer asks about - the requested ones and, unless shallow, the files
+   listed by the requested directory objects (loaded from the source); inr = the exception *)
+Definition expand (a : alg) (src : oid -> option (list N)) (ids : list oid) (shallow : bool)
+  : list oid + N :=
   let ids := dedup ids in
   let dirs := filter is_dir_oid ids in
-  (* status(dest, ..., cache_odb=src): expand the requested directories *)
   match (if shallow then inl [] else load_all a src dirs) with
   | inr c => inr c
   | inl expanded =>
       if existsb (fun de => existsb is_nilb (snd de)) expanded then inr 10      (* assert oid.value *)
-      else
-      let all := dedup (flat_map snd expanded ++ ids) in
-      let dst_exists := filter (store_has st dst) all in
-      let dst_missing := filter (fun k => negb (store_has st dst k)) all in
-      match dst_missing with
-      | [] => inl ([], [])
-      | _ :: _ =>
-          let in_src k := match src k with Some _ => true | None => false end in
-          let new := filter (fun k => in_src k && negb (mem k dst_exists)) all in
-          let missing := filter (fun k => negb (in_src k)) dst_missing in
-          (* _do_transfer *)
-          let new_dirs := filter is_dir_oid new in
-          let new_files := filter (fun k => negb (is_dir_oid k)) new in
-          match load_all a src new_dirs with
-          | inr _ => inr 10                                   (* assert dir_obj *)
-          | inl loaded =>
-              let send := filter (fun de => negb (existsb (fun k => mem k missing) (snd de))) loaded in
-              inl (items_of src new_files, items_of src (map fst send))
-          end
-      end
+      else inl (dedup (flat_map snd expanded ++ ids))
+  end.
+
+(* compare_status + _do_transfer without faults and without remote indexes, on the state the
+   status queries left: what is to be copied - (file objects, directory objects) - or the exception.
+   [a]: hash_name of the source odb; [src]: its objects.  (status.py assumes that a memfs staging
+   source holds every id; build() put every id it requests there, so looking them up is the same.) *)
+Definition transfer_plan (a : alg) (src : oid -> option (list N))
+           (st : state) (dst : nat) (all : list oid)
+  : (list (oid * list N) * list (oid * list N)) + N :=
+  let dst_exists := filter (store_has st dst) all in
+  let dst_missing := filter (fun k => negb (store_has st dst k)) all in
+  let in_src k := match src k with Some _ => true | None => false end in
+  let new := filter (fun k => in_src k && negb (mem k dst_exists)) all in
+  let missing := filter (fun k => negb (in_src k)) dst_missing in
+  (* _do_transfer *)
+  let new_dirs := filter is_dir_oid new in
+  let new_files := filter (fun k => negb (is_dir_oid k)) new in
+  match load_all a src new_dirs with
+  | inr _ => inr 10                                   (* assert dir_obj *)
+  | inl loaded =>
+      let send := filter (fun de => negb (existsb (fun k => mem k missing) (snd de))) loaded in
+      inl (items_of src new_files, items_of src (map fst send))
   end.
 
 (* dest.add(..., check_exists=False): the file objects in one call, then every directory object
@@ -261,11 +313,25 @@ Definition apply_plan (st : state) (dst : nat) (p : list (oid * list N) * list (
   let st1 := match fst p with [] => st | _ => add_copy st dst (fst p) false end in
   fold_left (fun s it => add_copy s dst [it] false) (snd p) st1.
 
-Definition transfer_core (a : alg) (src : oid -> option (list N))
+(* transfer(src, dest, ids, shallow): status(dest) checks every id (a local destination verifies
+   and protects what it holds unprotected); if something is missing there, status(src) does the
+   same on a real source store ([src_idx]; a staging source is memfs and not queried); then the
+   new objects are added.  [srcf st]: the source's objects in state [st]. *)
+Definition transfer_core (a : alg) (srcf : state -> oid -> option (list N)) (src_idx : option nat)
            (st : state) (dst : nat) (ids : list oid) (shallow : bool) : state * N :=
-  match transfer_plan a src st dst ids shallow with
+  match expand a (srcf st) ids shallow with
   | inr c => (st, c)
-  | inl p => (apply_plan st dst p, 0)
+  | inl all =>
+      let st1 := check_all st dst all in
+      match filter (fun k => negb (store_has st1 dst k)) all with
+      | [] => (st1, 0)
+      | _ :: _ =>
+          let st2 := match src_idx with Some i => check_all st1 i all | None => st1 end in
+          match transfer_plan a (srcf st2) st2 dst all with
+          | inr c => (st2, c)
+          | inl p => (apply_plan st2 dst p, 0)
+          end
+      end
   end.
 
 (* what build() leaves in the staging (reference) odb: oid -> bytes, later entries replace
@@ -290,19 +356,19 @@ Definition stage (st : state) (si : nat) (w : work) : state * N :=
       match w with
       | WFile b =>
           let k := H a b in
-          transfer_core a (refs_lookup [(k, b)]) st si [k] false
+          transfer_core a (fun _ => refs_lookup [(k, b)]) None st si [k] false
       | WDir files =>
           let hashed := map (fun kb => (fst kb, H a (snd kb), snd kb)) files in
           let listing := listing_of a (map (fun x => (fst (fst x), snd (fst x))) hashed) in
           let d := dir_oid_of listing in
           let refs := map (fun x => (snd (fst x), snd x)) hashed ++ [(d, listing)] in
           match a with
-          | Md5 => transfer_core a (refs_lookup refs) st si [d] false
+          | Md5 => transfer_core a (fun _ => refs_lookup refs) None st si [d] false
           | _ =>
               (* _build_external_tree_info: the listing goes straight into the destination under
                  its md5 name, is re-hashed with the odb's algorithm and requested under that *)
               let st1 := add_copy st si [(d, listing)] true in
-              transfer_core a (refs_lookup refs) st1 si [H a listing ++ dot_dir] false
+              transfer_core a (fun _ => refs_lookup refs) None st1 si [H a listing ++ dot_dir] false
           end
       end
   end.
@@ -328,12 +394,14 @@ Definition add_ext (st : state) (si : nat) (b : list N) (k : oid) : state * N :=
   | Some _ => (add_copy st si [(k, b)] true, 0)
   end.
 
+Definition store_bytes (st : state) (si : nat) (k : oid) : option (list N) :=
+  match get_store st si with Some s => option_map o_bytes (alookup k (s_objs s)) | None => None end.
+
 Definition transfer_op (st : state) (src dst : nat) (ids : list oid) (shallow : bool) : state * N :=
   match get_store st src, get_store st dst with
   | Some s, Some _ =>
       if Nat.eqb src dst then (st, 0)                         (* src == dest *)
-      else transfer_core (s_alg s) (fun k => option_map o_bytes (alookup k (s_objs s)))
-                         st dst ids shallow
+      else transfer_core (s_alg s) (fun st' k => store_bytes st' src k) (Some src) st dst ids shallow
   | _, _ => (st, 99)
   end.
 
@@ -384,6 +452,7 @@ Definition step_op (st : state) (o : op) : state * N :=
   | OTransfer src dst ids sh => transfer_op st src dst ids sh
   | OSaveIndex si dirs files => save_index st si dirs files
   | OMigrate src dst order hard => migrate_op st src dst order hard
+  | OReopen si c => (set_cls st si c, 0)
   end.
 
 (* ---- the caller's obligations (WfOp of Proofs/StoreOpsProofs.v), as a boolean ---- *)
@@ -417,6 +486,7 @@ Definition wf_op_b (st : state) (o : op) : bool :=
       | None => true
       end
   | OMigrate _ _ _ _ => true
+  | OReopen _ _ => true
   end.
 
 (* a sufficient boolean test for "the invariant is violated": some object is filed under a name
@@ -566,14 +636,16 @@ Definition same_obj (a b : obj) : bool :=
   list_N_eqb (o_bytes a) (o_bytes b) && (o_mode a =? o_mode b).
 
 (* what changed in a store between two states: the entries of [next] that are new or differ,
-   and the number of objects of [next] (so that a removal cannot go unnoticed) *)
+   the number of objects of [next], and the ids that are gone *)
 Definition delta (prev next : store) : val :=
   let ch := filter (fun p => match alookup (fst p) (s_objs prev) with
                              | Some o => negb (same_obj o (snd p))
                              | None => true
                              end) (listing next) in
+  let gone := filter (fun p => negb (ahas (fst p) (s_objs next))) (listing prev) in
   VL [VN (N.of_nat (length (s_objs next)));
-      VL (map (fun p => VL [VB (fst p); VB (o_bytes (snd p)); VN (o_mode (snd p))]) ch)].
+      VL (map (fun p => VL [VB (fst p); VB (o_bytes (snd p)); VN (o_mode (snd p))]) ch);
+      VL (map (fun p => VB (fst p)) gone)].
 
 Fixpoint deltas (prev next : list store) : list val :=
   match prev, next with
